@@ -229,6 +229,36 @@ def build(reg, src, evaluator=True, verify_evaluator=True):
     reg.fn(KI + '_eval_fn', loops={0: loop(invariant=[inv_k, pres_k], havoc=dict(q='opaque'))}, **common)
     reg.fn(KI + '_resolve_fn', **dict(common, returns=('opaque', 'opaque', 'opaque')))
 
+    # recursion through .f: in the frame of the call, .f is the function AS IT WAS CALLED - with its declaration of locals - so that a
+    # recursive call gets its own locals (binding the body stripped of the declaration makes the callee's `a::...` write the caller's a)
+    def note_resolved(eng, st, s, r):
+        if isinstance(r, VTuple) and 'resolved_f' in st.ghost:
+            st.ghost['resolved_f'] = r.items[0]
+    reg.fns[KI + '_resolve_fn'].ghost_at_call = note_resolved
+
+    def note_push(eng, st, s, r):
+        """when the frame is pushed: is its .f entry the function that was resolved for this call?"""
+        rf = st.ghost.get('resolved_f')
+        if isinstance(rf, VOpaque) and isinstance(s.d, VOpaque):
+            dotf = eng_globals['reserved_dot_f_symbol']
+            stored = z3.Select(z3.Select(st.ghost['mem'].t, s.d.t), dotf.t)
+            has = z3.Select(z3.Select(st.ghost['has'].t, s.d.t), dotf.t)
+            st.ghost['dotf_ok'] = VBool(z3.And(has, stored == rf.t))
+    reg.fns[KC + 'push'].ghost_at_call = note_push
+
+    def dot_f_is_the_called_function(s, *a):
+        ok = s.st.ghost.get('dotf_ok')
+        return ok if isinstance(ok, VBool) and s.has('ctx') else VBool(True)
+    ce = reg.fns[KI + '_eval_fn']
+    prev_setup_ef = ce.setup
+
+    def ef_setup(eng, st):
+        prev_setup_ef(eng, st)
+        st.ghost['resolved_f'] = NONE
+    ce.setup = ef_setup
+    ce.ensures = list(ce.ensures) + [dot_f_is_the_called_function]
+    ce.ensures_exc = list(ce.ensures_exc) + [dot_f_is_the_called_function]
+
     # eval: the general contract, plus the conditional as a separate case with its evaluation log
     def cond_case(eng, st):
         klong_setup(eng, st)
@@ -268,6 +298,7 @@ def build(reg, src, evaluator=True, verify_evaluator=True):
         return
     reg.extra_checks.append(rp.check_merge_projections)
     reg.replays.append((r'KlongContext\.(__getitem__|__setitem__|__delitem__)|set_context_var', rp.replay_scopes))
+    reg.replays.append((r'_eval_fn#post(_exc)?1', rp.replay_application))
     reg.replays.append((r'eval\[conditional\]', rp.replay_cond))
     reg.replays.append((r'KlongInterpreter|KlongContext\.(push|pop|start_module|stop_module|__init__)', rp.replay_stack))
 
@@ -276,11 +307,14 @@ REGIONS = {}
 RES_IMPL = [lambda k: z3.Function('p:in', Obj, Obj, Bool)(k, z3.Const('reserved_fn_symbols', Obj))]
 
 
+eng_globals = {g: VOpaque(z3.Const(g, Obj), nonnull=True) for g in ('reserved_fn_symbols', 'reserved_fn_symbol_map', 'reserved_fn_args', 'reserved_dot_f_symbol')}
+
+
 def configure(eng):
     cm.configure(eng)
     eng.opaque_classes |= {'KGCall', 'KGFn', 'KGLambda', 'KGSym', 'KGModule', 'KlongException', 'KGFnWrapper'}
-    for g in ('reserved_fn_symbols', 'reserved_fn_symbol_map', 'reserved_fn_args', 'reserved_dot_f_symbol'):
-        eng.globals_v[g] = VOpaque(z3.Const(g, Obj), nonnull=True)
+    for g, v in eng_globals.items():
+        eng.globals_v[g] = v
 
     def call_opaque(e, fv, args, kwargs, st, node):
         """a Python callable / verb function / compiled expression run by the evaluator: assumed stack-preserving"""
